@@ -45,6 +45,14 @@ class C07(ProgProp):
             # other overrides must still be undone
             case["spec"].setdefault("faults", {}).setdefault("ctx", {})["#%d" % rng.randint(1, 4)] = [rng.choice(["pause", "resume"]), rng.randint(2, 3), "base"]
             case["spec"]["ctx_fault"] = True
+        import json
+        import zlib
+        dg = zlib.crc32(json.dumps(case["spec"]["templates"], sort_keys=True).encode())
+        if dg % 8 == 0 and not case["spec"].get("ctx_fault"):
+            # the computation is stopped by the runaway-recursion guard (RuntimeError): whatever
+            # was overridden at that moment must be back when the error reaches the caller
+            case["spec"]["max_stack"] = 2 + (dg // 8) % 5
+            case["spec"]["ctx_fault"] = True  # (no value oracle for a computation cut short)
         return case
 
 
